@@ -41,7 +41,7 @@ PROBES = [
     "probe.runtime_error_line", "probe.runtime_error_after_effects", "probe.continued_line",
     "probe.closure_call", "probe.recursion", "probe.echo_seen", "probe.use_after_reject", "probe.two_rejects_in_a_row",
     "probe.blank_entry", "probe.continued_line_closed_by_blank", "probe.comment_only_line", "probe.runtime_error_inside_call",
-    "probe.function_literal_in_container",
+    "probe.function_literal_in_container", "probe.block_local_let", "probe.comment_before_continuation", "probe.string_spans_continuation",
 ]
 THOROUGH_ONLY_PROBES = ["probe.long_session"]
 COMPONENTS = {
@@ -100,8 +100,18 @@ def _ok_stmt(rng, env, stats):
     k = rng.weighted([
         (22, "let"), (10 if ints else 0, "assign"), (12, "fn"), (20, "print"), (6, "str"), (6, "arr"),
         (6, "if"), (5, "letif"), (4, "rec"), (5 if arrs else 0, "arrop"), (4, "loop"), (3, "map"),
-        (4, "fnarr"), (3, "fnmap"), (3, "fnif"), (4 if funs0 else 0, "fnassign"),
+        (4, "fnarr"), (3, "fnmap"), (3, "fnif"), (4 if funs0 else 0, "fnassign"), (6, "blocklet"),
     ])
+    if k == "blocklet":
+        # a `let` inside a block: local to the block, even when it reuses the name of a live top-level binding
+        # (p2sh keeps such a binding visible to later blocks of the same depth, in scripts and at the REPL alike;
+        # only integer names are rebound so that this quirk can change values but never types)
+        cands = [n for n in VARS if env.get(n) in (None, "int")]
+        if not cands:
+            return "puts(%s);" % _iexpr(rng, env), []
+        v = rng.choice(cands)
+        envx = dict((n, kk) for n, kk in env.items() if n != v)
+        return "if %s { let %s = %s; puts(%s); } else { puts(0); };" % (rng.choice(["true", "1 < 2", _bexpr(rng, envx)]), v, _iexpr(rng, envx, 1), v), []
     # function literals that are not the direct value of a `let`: stored in arrays / maps, chosen by an
     # if-expression, or assigned to an existing name (their bodies refer to constants of this line)
     if k in ("fnarr", "fnmap", "fnif", "fnassign"):
@@ -262,6 +272,14 @@ def generate(rng, tier, idx):
                 _apply(env, f["eff"])
                 for d in f["dead"]:
                     env.pop(d, None)
+            if rng.chance(30):
+                # a second failing line right behind the first (no accepted line in between)
+                f2 = _gen_failing(rng, env, stats)
+                lines.append(f2)
+                if f2["kind"] == "runtime":
+                    _apply(env, f2["eff"])
+                    for d in f2["dead"]:
+                        env.pop(d, None)
             # a probe right after every failing line: every live binding must be unchanged
             if rng.chance(85):
                 lines.append({"kind": "probe", "text": _probe_line(env), "cut": None})
@@ -292,6 +310,15 @@ def generate(rng, tier, idx):
         elif rng.chance(6):
             # continued entry that is finished by an empty physical line
             ln["text"] = text + " \n"
+        elif rng.chance(7) and "; " in text and '"' not in text:
+            # continued entry whose first physical line ends in a comment: the line break ends the comment
+            p = text.index("; ") + 1
+            ln["text"] = text[:p] + " // note" + "\n" + text[p + 1:]
+        elif rng.chance(5):
+            # a string literal that spans the continuation (it then contains the newline)
+            v = rng.choice(VARS)
+            ln["text"] = text + ' let %s = "ab\ncd"; puts(%s);' % (v, v)
+            env[v] = "str"
         lines.append(ln)
     if rng.chance(50) or long_session:
         lines.append({"kind": "probe", "text": _probe_line(env), "cut": None})
@@ -308,7 +335,9 @@ def generate(rng, tier, idx):
 
 def physical(line_text):
     parts = line_text.split("\n")
-    return [p + " \\" for p in parts[:-1]] + [parts[-1]]
+    # the REPL strips exactly the trailing backslash and joins with a newline, so the logical text is reproduced
+    # byte for byte (this matters when the break falls inside a string literal or after a // comment)
+    return [p + "\\" for p in parts[:-1]] + [parts[-1]]
 
 
 def reference_source(model, k):
@@ -420,6 +449,12 @@ def check(model, results):
             inc("probe.recursion")
         if kind in ("ok", "probe") and ("](" in ln["text"]):
             inc("probe.function_literal_in_container")
+        if "{ let " in ln["text"] and kind == "ok":
+            inc("probe.block_local_let")
+        if "// note\n" in ln["text"]:
+            inc("probe.comment_before_continuation")
+        if '"ab\ncd"' in ln["text"]:
+            inc("probe.string_spans_continuation")
         inc("ops." + kind)
         if kind == "blank":
             inc("probe.blank_entry")
